@@ -2282,6 +2282,14 @@ def parse_immediate_tokens(imm, line):
 
 
 def parse_item(line_tokens):
+    try:
+        return parse_item_tokens(line_tokens)
+    except (IndexError, ValueError):
+        # one of the branches below found fewer / more tokens than it unpacks
+        raise AssemblerError('invalid syntax (wrong number of operands)', line_tokens.line)
+
+
+def parse_item_tokens(line_tokens):
     line = line_tokens.line
     tokens = line_tokens.tokens
     head = tokens[0].lower()
@@ -3038,6 +3046,15 @@ def transform_pseudo_instructions(items, constants, labels):
             imm = ['%offset', reference]
         return parse_immediate(imm, line)
 
+    # number of operands of each PI (li: a register and an expression of 1+ tokens)
+    arity = {
+        'nop': 0, 'ret': 0, 'fence': 0,
+        'j': 1, 'jal': 1, 'jr': 1, 'jalr': 1, 'call': 1, 'tail': 1,
+        'mv': 2, 'not': 2, 'neg': 2, 'seqz': 2, 'snez': 2, 'sltz': 2, 'sgtz': 2,
+        'beqz': 2, 'bnez': 2, 'blez': 2, 'bgez': 2, 'bltz': 2, 'bgtz': 2,
+        'bgt': 3, 'ble': 3, 'bgtu': 3, 'bleu': 3,
+    }
+
     position = 0
     new_items = []
     for item in items:
@@ -3046,6 +3063,13 @@ def transform_pseudo_instructions(items, constants, labels):
             position += item.size()
             new_items.append(item)
             continue
+
+        if item.name == 'li':
+            well_formed = len(item.args) >= 2
+        else:
+            well_formed = len(item.args) == arity.get(item.name, len(item.args))
+        if not well_formed:
+            raise AssemblerError('wrong number of operands for pseudo-instruction: {}'.format(item.name), item.line)
 
         if item.name == 'nop':
             inst = ITypeInstruction(item.line, 'addi', rd='x0', rs1='x0', imm=Arithmetic('0'))
